@@ -182,7 +182,7 @@ def _(u):
     u.canary("reward.negated", r.at(b) == -want.at(b))
 
 
-@unit("op.rowlocal", file=F, func="OPEnv._step", props=("C04",))
+@unit("op.rowlocal", file=F, func="OPEnv._step", props=("C04", "C14"))
 def _(u):
     N = u.dim("N")
     env = u.obj(F, "OPEnv")
@@ -199,14 +199,14 @@ def _(u):
     rowlocal(u, "step", mk_in, lambda u, td: u.run(F, "OPEnv._step", td, selfobj=env), requires=req)
 
 
-@unit("op.rowlocal.mask", file=F, func="OPEnv.get_action_mask", props=("C04",))
+@unit("op.rowlocal.mask", file=F, func="OPEnv.get_action_mask", props=("C04", "C14"))
 def _(u):
     N = u.dim("N")
     rowlocal(u, "mask", lambda u, B: state(u, B, N), lambda u, td: u.run(F, "OPEnv.get_action_mask", td),
              requires=lambda u, td, B: state_ok(u, td, B, N))
 
 
-@unit("op.rowlocal.reward", file=F, func="OPEnv._get_reward", props=("C04",))
+@unit("op.rowlocal.reward", file=F, func="OPEnv._get_reward", props=("C04", "C14"))
 def _(u):
     N, T = u.dims("N T")
     u.requires(T >= 2)
